@@ -919,6 +919,10 @@ def c16_scenarios(seed, tier):
         if i % 23 == 3:
             length = int(rng.choice([40, 90, 150]))     # ends mid-season / partial season
         end = start + pd.Timedelta(days=length)
+        if i % 11 == 4:
+            # window ending on (or a day around) an anniversary of the planting date
+            yrs = int(rng.choice([1, 2]))
+            end = pd.Timestamp(year=year + yrs, month=pm, day=min(pd_, 28)) + pd.Timedelta(days=int(rng.choice([-1, 0, 0, 1])))
         regime = str(rng.choice(["hot", "mild", "storm", "drought", "hot"]))
         sc = dict(id=16000 + i, start=start.strftime("%Y/%m/%d"), end=end.strftime("%Y/%m/%d"),
                   weather=dict(kind="synth", seed=int(rng.integers(1 << 30)), regime=regime,
@@ -1011,8 +1015,8 @@ def c17(ctx):
     viols, evals, nontriv = [], 0, 0
     eps = 1e-12
     nd = 15 if tier == "quick" else 57
-    dgrid = np.linspace(-0.2, 1.2, nd)
-    et0s = [0.1, 2.0, 5.0, 9.0, 20.0] if tier == "quick" else np.linspace(0.1, 20, 12)
+    dgrid = np.array(sorted(set(np.linspace(-0.2, 1.2, nd).tolist()) | {0.0, 1.0, 0.5}))
+    et0s = [0.1, 2.0, 5.0, 9.0, 17.5, 20.0] if tier == "quick" else sorted(set(np.linspace(0.1, 20, 12).tolist()) | {5.0, 17.5})
     temps = np.linspace(-30, 60, 19 if tier == "quick" else 91)
     pseudo = dict(id="lattice")
     for cname in S.CROPS:
@@ -1021,10 +1025,11 @@ def c17(ctx):
         p_lo = np.array([c.p_lo1, c.p_lo2, c.p_lo3, c.p_lo4], dtype=float)
         fsh = np.array([c.fshape_w1, c.fshape_w2, c.fshape_w3, c.fshape_w4], dtype=float)
         taw = 150.0
+        dg = np.array(sorted(set(dgrid.tolist()) | set(float(x) for x in p_up) | set(float(x) for x in p_lo)))
         for et0 in et0s:
             for tes in (0.0, 3.0):
                 prev = None
-                for d in dgrid:
+                for d in dg:
                     ks = np.array(water_stress(p_up, p_lo, c.ETadj, c.beta, fsh, tes, d * taw, taw, float(et0), True), dtype=float)
                     evals += 1
                     if np.any(ks < -eps) or np.any(ks > 1 + eps) or not np.all(np.isfinite(ks)):
